@@ -65,3 +65,43 @@ def to_lean(node: ast.AST, leaf) -> str:
     if isinstance(node, ast.BinOp) and type(node.op) in BINOPS:
         return f"({to_lean(node.left, leaf)} {BINOPS[type(node.op)]} {to_lean(node.right, leaf)})"
     raise Untranslatable(f"unsupported expression: {ast.unparse(node)}")
+
+
+class _Subst(ast.NodeTransformer):
+    def __init__(self, env: dict[str, ast.AST]):
+        self.env = env
+
+    def visit_Name(self, node: ast.Name):
+        if isinstance(node.ctx, ast.Load) and node.id in self.env:
+            import copy
+            return copy.deepcopy(self.env[node.id])
+        return node
+
+
+def inline_temps(stmts: list[ast.stmt], protect: set[str] = frozenset()) -> list[ast.stmt]:
+    """Remove local temporaries from a straight-line statement list: a statement `name = expr` whose target is a
+    plain name assigned exactly once in `stmts` (and not in `protect`) is dropped and `expr` substituted for
+    every later use (also inside nested loop bodies).  `expr` must be free of calls other than casts, so that
+    duplicating it is harmless.  Everything else is returned unchanged."""
+    counts: dict[str, int] = {}
+    for st in stmts:
+        for node in ast.walk(st):
+            tgts = []
+            if isinstance(node, ast.Assign):
+                tgts = node.targets
+            elif isinstance(node, (ast.AugAssign, ast.For)):
+                tgts = [node.target]
+            for t in tgts:
+                if isinstance(t, ast.Name):
+                    counts[t.id] = counts.get(t.id, 0) + 1
+    env: dict[str, ast.AST] = {}
+    out: list[ast.stmt] = []
+    for st in stmts:
+        st = ast.fix_missing_locations(_Subst(env).visit(st))
+        if isinstance(st, ast.Assign) and len(st.targets) == 1 and isinstance(st.targets[0], ast.Name) \
+                and counts.get(st.targets[0].id) == 1 and st.targets[0].id not in protect \
+                and not any(isinstance(x, ast.Call) for x in ast.walk(st.value)):
+            env[st.targets[0].id] = st.value
+            continue
+        out.append(st)
+    return out
